@@ -187,8 +187,10 @@ impl Connections {
 
     pub fn get_conn<'a>(&'a mut self, host: &str, now: Instant) -> Result<&'a mut KafkaConnection> {
         if let Some(conn) = self.conns.get_mut(host) {
-            if now.duration_since(conn.last_checkout) >= self.config.idle_timeout {
-                debug!("Idle timeout reached: {:?}", conn.item);
+            if conn.item.broken
+                || now.duration_since(conn.last_checkout) >= self.config.idle_timeout
+            {
+                debug!("Idle timeout reached or broken: {:?}", conn.item);
                 let new_conn = self.config.new_conn(self.state.next_conn_id(), host)?;
                 let _ = conn.item.shutdown();
                 conn.item = new_conn;
@@ -211,8 +213,10 @@ impl Connections {
 
     pub fn get_conn_any(&mut self, now: Instant) -> Option<&mut KafkaConnection> {
         for (host, conn) in &mut self.conns {
-            if now.duration_since(conn.last_checkout) >= self.config.idle_timeout {
-                debug!("Idle timeout reached: {:?}", conn.item);
+            if conn.item.broken
+                || now.duration_since(conn.last_checkout) >= self.config.idle_timeout
+            {
+                debug!("Idle timeout reached or broken: {:?}", conn.item);
                 let new_conn_id = self.state.next_conn_id();
                 let new_conn = match self.config.new_conn(new_conn_id, host.as_str()) {
                     Ok(new_conn) => {
@@ -351,6 +355,10 @@ pub struct KafkaConnection {
     host: String,
     // the (wrapped) tcp stream
     stream: KafkaStream,
+    // set once a read or write on this connection failed: a reply may
+    // still be in flight or a request only partially written, so the
+    // stream must not be used for another request/response exchange
+    broken: bool,
 }
 
 impl fmt::Debug for KafkaConnection {
@@ -369,12 +377,14 @@ impl KafkaConnection {
     pub fn send(&mut self, msg: &[u8]) -> Result<usize> {
         let r = self.stream.write_all(msg).map(|()| msg.len()).map_err(From::from);
         trace!("Sent {} bytes to: {:?} => {:?}", msg.len(), self, r);
+        self.broken |= r.is_err();
         r
     }
 
     pub fn read_exact(&mut self, buf: &mut [u8]) -> Result<()> {
         let r = (self.stream).read_exact(buf).map_err(From::from);
         trace!("Read {} bytes from: {:?} => {:?}", buf.len(), self, r);
+        self.broken |= r.is_err();
         r
     }
 
@@ -402,6 +412,7 @@ impl KafkaConnection {
             id,
             host: host.to_owned(),
             stream,
+            broken: false,
         })
     }
 
